@@ -152,7 +152,7 @@ def run_case(job):
             return {"viol": [(f"raises/beam{c['dim']}D/{c['elem']}/{c['law']}/{c['field']}", f"{type(ex).__name__}: {ex} | {traceback.format_exc()[-300:]}", {"case": case})], "n": 1, "keys": [], "traces": 1}
     dim, elem = c["dim"], c["elem"]
     viol = []
-    key = f"{c['phys']}{dim}D/{elem}/{c['law']}/{c['mesh']}/{c['map']}"
+    key = f"{c['phys']}{dim}D/{elem}/{c['law']}/{c['mesh']}/{c['map']}" + (f"/{c['bc']}" if c.get('bc', 'func') != 'func' else '')
     try:
         mesh0 = base_mesh(dim, elem, c["mesh"] == "mixed")
         A = np.array([[f2(q) for q in row] for row in case["A"]])
@@ -175,14 +175,20 @@ def run_case(job):
                 off = np.array([0.002, -0.001, 0.0015])[:dim]
                 unk = ["x", "y", "z"][:dim]
                 funcs = [(lambda x, y, z, k=k: G[k, 0] * x + G[k, 1] * y + (G[k, 2] * z if dim == 3 else 0.0) + off[k]) for k in range(dim)]
-                sim.add_dirichlet(bnodes, funcs, unk)
+                bn = bnodes if c.get("bc", "func") != "array-permuted" else bnodes[np.random.default_rng(7).permutation(bnodes.size)]
+                if c.get("bc", "func") == "func":
+                    sim.add_dirichlet(bn, funcs, unk)
+                else:  # nodal arrays aligned with the node list as given
+                    sim.add_dirichlet(bn, [f(X[bn, 0], X[bn, 1], X[bn, 2]) for f in funcs], unk)
                 u = sim.Solve().reshape(-1, dim)
                 exact = X[:, :dim] @ G.T + off
             else:
                 mat = Models.Thermal(k=2.0, c=1.0, thickness=0.5)
                 sim = Simulations.Thermal(mesh, mat, verbosity=False)
                 g = np.array([f2(q) for q in case["strain"]])
-                sim.add_dirichlet(bnodes, [lambda x, y, z: g[0] * x + g[1] * y + (g[2] * z if dim == 3 else 0.0) + 3.0], ["t"])
+                tf = lambda x, y, z: g[0] * x + g[1] * y + (g[2] * z if dim == 3 else 0.0) + 3.0
+                bn = bnodes if c.get("bc", "func") != "array-permuted" else bnodes[np.random.default_rng(7).permutation(bnodes.size)]
+                sim.add_dirichlet(bn, [tf] if c.get("bc", "func") == "func" else [tf(X[bn, 0], X[bn, 1], X[bn, 2])], ["t"])
                 u = sim.Solve().reshape(-1, 1)
                 exact = (X[:, :dim] @ g + 3.0).reshape(-1, 1)
         sc = max(np.abs(exact).max(), 1e-12)
